@@ -552,7 +552,17 @@ def astype(I, a, t):
     raise Unsupported('astype %r' % t)
 
 
+class DTypeTok:
+    """numpy dtype known only by its kind"""
+
+    def __init__(self, kind):
+        self.kind = kind
+        self.char = {'f': 'f', 'i': 'i', 'b': '?', 'O': 'O'}.get(kind, 'f')
+
+
 def dtype_kind(t):
+    if isinstance(t, DTypeTok):
+        return t.kind
     if isinstance(t, str):
         t0 = t.lstrip('<>=')
         if t0[:1] in ('i', 'u') or t0.startswith('int') or t0.startswith('uint'):
@@ -692,6 +702,8 @@ def value_getattr(I, a, name):
         return None
     if name in a.attrs:
         return a.attrs[name]
+    if name == 'dtype':
+        return DTypeTok(a.kind)
     if name == 'shape':
         return a.shape
     if name == 'ndim':
@@ -717,7 +729,15 @@ def value_getattr(I, a, name):
     if name == 'copy':
         return meth(lambda I, r, args, kw: copy_of(I, r))
     if name == 'view':
-        return meth(lambda I, r, args, kw: r)
+        def view(I, r, args, kw):
+            from .exec import ClassRef
+            t = args[0] if args else kw.get('type')
+            if isinstance(t, ClassRef):
+                v = SArr(r.shape, kind=r.kind, buf=r.buf, imap=r.imap, inv=r.inv, attrs={}, tag=r.tag, mask=r.mask)
+                v.cls = t       # instance of a repository ndarray subclass: its methods are looked up in the class
+                return v
+            return r
+        return meth(view)
     if name == 'take':
         def take(I, r, args, kw):
             i = args[0]
@@ -784,7 +804,15 @@ def value_getattr(I, a, name):
             m = r.mask
             return SArr(r.shape, lambda q: sym.ite(m.get(q), fv, r.get(q)), r.kind, tag='filled')
         return meth(filled)
-    if name in ('units', 'calendar', 'bounds', 'long_name', 'var_desc', 'missing_value', 'fill_value', '_FillValue', 'scale_factor', 'add_offset'):
+    cls = getattr(a, 'cls', None)
+    if cls is not None:
+        v = I.class_getattr(cls, name)
+        from .exec import FuncRef
+        if isinstance(v, FuncRef):
+            return v.bind(a)
+        if v is not None:
+            return v
+    if name in ('units', 'calendar', 'bounds', 'long_name', 'var_desc', 'missing_value', 'fill_value', '_FillValue', 'scale_factor', 'add_offset', 'name', '_name', 'standard_name'):
         raise PyExc('AttributeError', name)   # a netCDF attribute this variable does not have
     return None
 
